@@ -20,7 +20,7 @@ type Engine struct {
 	MaxPaths int
 	// Contract hooks: called for invoke-mode calls on symbolic interface values and for
 	// module functions the caller wants summarised instead of inlined. Return handled=false to fall through.
-	Contract func(p *Path, fr *frame, call *ssa.CallCommon, callee *ssa.Function, args []Value) (Value, bool)
+	Contract func(p *Path, fr *Frame, call *ssa.CallCommon, callee *ssa.Function, args []Value) (Value, bool)
 
 	preseed map[ssa.Value]Value
 }
@@ -48,6 +48,31 @@ func (e *Engine) AutoArgs(p *Path, fn *ssa.Function) []Value {
 // Lazy exposes lazyValue to rule code.
 func (e *Engine) Lazy(p *Path, name string, t types.Type) Value { return e.lazyValue(p, name, t) }
 
+// RunCustom explores every path of an arbitrary driver (a sequence of CallFn invocations).
+func (e *Engine) RunCustom(body func(p *Path) []Value) []Result {
+	var results []Result
+	var decisions []bool
+	for n := 0; n < e.MaxPaths; n++ {
+		p := &Path{E: e, decisions: append([]bool(nil), decisions...), Bind: map[string]map[int]bool{}, Assumed: map[string]bool{},
+			Atoms: map[string]*AtomInfo{}, Sinks: map[string]*Obj{}, Keep: map[string]Value{}, NilNames: map[string]bool{}}
+		ret := body(p)
+		results = append(results, Result{Path: p, Ret: ret})
+		if strings.HasPrefix(p.Abort, "loop with a symbolic bound") {
+			return results
+		}
+		d := p.decisions
+		i := len(d) - 1
+		for i >= 0 && !d[i] {
+			i--
+		}
+		if i < 0 {
+			return results
+		}
+		decisions = append(append([]bool(nil), d[:i]...), false)
+	}
+	return results
+}
+
 // Setup prepares the arguments and initial state of a path (bind atoms, declare domains, build inputs).
 type Setup func(p *Path) []Value
 
@@ -57,7 +82,7 @@ func (e *Engine) Run(fn *ssa.Function, setup Setup) []Result {
 	var decisions []bool
 	for n := 0; n < e.MaxPaths; n++ {
 		p := &Path{E: e, decisions: append([]bool(nil), decisions...), Bind: map[string]map[int]bool{}, Assumed: map[string]bool{},
-			Atoms: map[string]*AtomInfo{}, Sinks: map[string]*Obj{}, Keep: map[string]Value{}}
+			Atoms: map[string]*AtomInfo{}, Sinks: map[string]*Obj{}, Keep: map[string]Value{}, NilNames: map[string]bool{}}
 		args := setup(p)
 		ret := e.call(p, fn, args, 0)
 		results = append(results, Result{Path: p, Ret: ret})
@@ -81,7 +106,8 @@ func (e *Engine) Run(fn *ssa.Function, setup Setup) []Result {
 	return results
 }
 
-type frame struct {
+// Frame is one activation record.
+type Frame struct {
 	fn     *ssa.Function
 	env    map[ssa.Value]Value
 	depth  int
@@ -102,7 +128,7 @@ func (e *Engine) call(p *Path, fn *ssa.Function, args []Value, depth int) []Valu
 		p.abort("no body for %s", core.FullName(fn))
 		return nil
 	}
-	fr := &frame{fn: fn, env: map[ssa.Value]Value{}, depth: depth, visits: map[*ssa.BasicBlock]int{}, forks: map[*ssa.If]int{}}
+	fr := &Frame{fn: fn, env: map[ssa.Value]Value{}, depth: depth, visits: map[*ssa.BasicBlock]int{}, forks: map[*ssa.If]int{}}
 	for k, v := range e.preseed {
 		fr.env[k] = v
 	}
@@ -184,7 +210,7 @@ func (e *Engine) call(p *Path, fn *ssa.Function, args []Value, depth int) []Valu
 }
 
 // operand evaluates an SSA operand.
-func (e *Engine) operand(p *Path, fr *frame, v ssa.Value) Value {
+func (e *Engine) operand(p *Path, fr *Frame, v ssa.Value) Value {
 	switch x := v.(type) {
 	case *ssa.Const:
 		return e.constant(p, x)
@@ -369,7 +395,7 @@ func (p *Path) cloneObj(o *Obj) *Obj {
 // ---------------------------------------------------------------------------------------------
 // instruction semantics
 
-func (e *Engine) exec(p *Path, fr *frame, in ssa.Instruction) {
+func (e *Engine) exec(p *Path, fr *Frame, in ssa.Instruction) {
 	switch x := in.(type) {
 	case *ssa.Alloc:
 		elem := x.Type().Underlying().(*types.Pointer).Elem()
@@ -478,6 +504,12 @@ func (e *Engine) topOf(p *Path, t types.Type, why string) Value {
 
 // lazyField materialises field i of a lazily symbolic struct object.
 func (e *Engine) lazyValue(p *Path, name string, t types.Type) Value {
+	if p.NilNames[name] {
+		switch t.Underlying().(type) {
+		case *types.Pointer, *types.Interface, *types.Slice:
+			return &NilV{}
+		}
+	}
 	if w, s, ok := typeWidth(t); ok {
 		return p.SymInt(name, w, s)
 	}
@@ -564,7 +596,7 @@ func structOf(t types.Type) *types.Struct {
 	return s
 }
 
-func (e *Engine) fieldAddr(p *Path, fr *frame, base Value, field int, baseT types.Type, at ssa.Instruction) Value {
+func (e *Engine) fieldAddr(p *Path, fr *Frame, base Value, field int, baseT types.Type, at ssa.Instruction) Value {
 	ptr, ok := base.(*Ptr)
 	if !ok {
 		if _, isNil := base.(*NilV); isNil {
@@ -636,7 +668,7 @@ func (e *Engine) loadField(p *Path, o *Obj, field int, t types.Type) Value {
 	return v
 }
 
-func (e *Engine) unop(p *Path, fr *frame, x *ssa.UnOp) Value {
+func (e *Engine) unop(p *Path, fr *Frame, x *ssa.UnOp) Value {
 	v := e.operand(p, fr, x.X)
 	switch x.Op {
 	case token.MUL:
@@ -680,7 +712,7 @@ func negKey(k string) string {
 	return "!(" + k + ")"
 }
 
-func (e *Engine) load(p *Path, fr *frame, addr Value, t types.Type, at ssa.Instruction) Value {
+func (e *Engine) load(p *Path, fr *Frame, addr Value, t types.Type, at ssa.Instruction) Value {
 	switch a := addr.(type) {
 	case *Ptr:
 		o := a.Obj
@@ -721,7 +753,7 @@ type BytePtr struct {
 	Off *Lin
 }
 
-func (e *Engine) store(p *Path, fr *frame, addr, val Value, at ssa.Instruction) {
+func (e *Engine) store(p *Path, fr *Frame, addr, val Value, at ssa.Instruction) {
 	switch a := addr.(type) {
 	case *Ptr:
 		o := a.Obj
@@ -760,7 +792,7 @@ func (e *Engine) store(p *Path, fr *frame, addr, val Value, at ssa.Instruction) 
 	}
 }
 
-func (e *Engine) indexAddr(p *Path, fr *frame, x *ssa.IndexAddr) Value {
+func (e *Engine) indexAddr(p *Path, fr *Frame, x *ssa.IndexAddr) Value {
 	base := e.operand(p, fr, x.X)
 	idx, _ := e.operand(p, fr, x.Index).(*Int)
 	if idx == nil || idx.Lin == nil {
@@ -812,16 +844,16 @@ func (e *Engine) elemPtr(p *Path, o *Obj, off *Lin) Value {
 // ---------------------------------------------------------------------------------------------
 // bounds obligations
 
-func (e *Engine) boundIndex(p *Path, fr *frame, at ssa.Instruction, idx, n *Lin) {
+func (e *Engine) boundIndex(p *Path, fr *Frame, at ssa.Instruction, idx, n *Lin) {
 	ok := p.Prove(idx) && p.Prove(n.Sub(idx).Add(LConst(-1)))
 	p.Bounds = append(p.Bounds, BoundOb{Pos: e.P.InstrPos(at), Func: core.QualName(fr.fn), What: "index " + idx.String() + " < " + n.String(), Proven: ok})
 }
 
-func (e *Engine) boundUnknown(p *Path, fr *frame, at ssa.Instruction, why string) {
+func (e *Engine) boundUnknown(p *Path, fr *Frame, at ssa.Instruction, why string) {
 	p.Bounds = append(p.Bounds, BoundOb{Pos: e.P.InstrPos(at), Func: core.QualName(fr.fn), What: why, Proven: false})
 }
 
-func (e *Engine) boundSlice(p *Path, fr *frame, at ssa.Instruction, lo, hi, cap *Lin) {
+func (e *Engine) boundSlice(p *Path, fr *Frame, at ssa.Instruction, lo, hi, cap *Lin) {
 	ok := p.Prove(lo) && p.Prove(hi.Sub(lo)) && p.Prove(cap.Sub(hi))
 	p.Bounds = append(p.Bounds, BoundOb{Pos: e.P.InstrPos(at), Func: core.QualName(fr.fn),
 		What: fmt.Sprintf("slice 0 <= %s <= %s <= %s", lo, hi, cap), Proven: ok})
